@@ -237,7 +237,19 @@ def q_expect_state(d):
 
 def q_entropy(d):
     S = _state(d)
-    return [S], lambda: S.entropy(d['region'])
+    N = d['N']
+    whole = list(range(N))
+    return [S], lambda: (S.entropy(d['region']), S.entropy(whole), S.entropy(tuple(whole)), S.entropy(np.ones(N, dtype=np.bool_)), S.entropy([]),
+                         S.entropy([q for q in whole if q not in d['region']]))
+
+
+def q_entropy_mixed5(d):
+    # a 5-qubit mixed state (2-4 active stabilizers, generally not in echelon form): all query forms incl. the whole register
+    rs = np.random.RandomState(d['seed'])
+    c = ref.clifford_from_word(5, rs.randint(0, ref.alphabet_size(5), size=25).tolist(), rs.randint(0, 2, size=10).tolist())
+    S = B.np_state(c, 1 + d['seed'] % 3)
+    whole = list(range(5))
+    return [S], lambda: (S.entropy(whole), S.entropy(np.ones(5, dtype=np.bool_)), S.entropy(d['region']), S.entropy([0, 4]), repr(S), S.expect(S.stabilizers))
 
 
 def q_sample(d):
@@ -420,7 +432,7 @@ def i_compose_then_extend(d):
     return [c2], call
 
 
-TABLE = {f.__name__: f for f in [i_compose_then_extend, q_expect_list, q_expect_pauli, q_expect_poly, q_expect_state, q_entropy, q_sample, q_get_prob, q_to_qutip, q_density, q_state_arith,
+TABLE = {f.__name__: f for f in [i_compose_then_extend, q_entropy_mixed5, q_expect_list, q_expect_pauli, q_expect_poly, q_expect_state, q_entropy, q_sample, q_get_prob, q_to_qutip, q_density, q_state_arith,
                                  q_to_map, q_state_misc, q_compose, q_inverse, q_to_state, q_pauli_misc, q_list_misc, q_poly_misc, q_diag_pauli, q_diag_state,
                                  q_stabilizer_state, q_paulis, q_sbrg, q_shadow, i_rotate, i_transform, i_measure, i_measure_state, i_postselect, i_gate, i_layer,
                                  i_circuit, i_compose_circuits]}
